@@ -39,6 +39,10 @@ def mk_table(rng, key, lo, hi, vref, iref, dims=None):
     for _ in range(nvi - 1):
         vis.append(float("%.4g" % (vis[-1] * rng.uniform(1.3, 2.5))))
     vals = [[ud(rng, lo, hi) for _ in ios] for _ in vis]
+    if rng.random() < 0.15:
+        vis = [-x if rng.random() < 0.6 else x for x in vis]          # tables are looked up by magnitude: a negative-rail datasheet
+    if key == "vdrop" and rng.random() < 0.15:
+        vals = [[-x if rng.random() < 0.6 else x for x in row] for row in vals]   # drops written with the rail's sign
     return {"vi": vis, "io": ios, key: vals}
 
 
